@@ -19,17 +19,19 @@
 EXTENDS Integers, Sequences, FiniteSets, TLC, SequencesExt, KKTAbs
 
 CONSTANTS Runs, Mode,
+          Faithful,    \* names of known defects of the code that the model reproduces instead of the intended design
           Tabs(_)      \* cfg record -> [dbl, half, inc, red, recip, x10 : rank -> rank] (sequences, index rank+1)
 
 VARIABLES pos,      \* trace mode: index of the next event; mc: 0
           pc, cfg, cur, lamb, rho, prho, filt, iter, nacc, nnot, ymax,
           trial, inner, post, pen, hist, path, ptime,
           status, err, result, bad, clk, disp, dlx,
-          orc       \* shared memo of the deterministic-but-unknown numerics
+          orc,      \* shared memo of the deterministic-but-unknown numerics
+          viol      \* mc mode: names of property clauses (tag P:Cxx) that failed on the way here
 
 algVars == <<cur, lamb, rho, prho, filt, iter, nacc, trial, pen, hist, status, err, result, ymax>>
 obsVars == <<nnot, post, disp, clk, dlx, path, ptime, bad, inner>>
-vars == <<pos, pc, cfg, algVars, obsVars, orc>>
+vars == <<pos, pc, cfg, algVars, obsVars, orc, viol>>
 
 NoRho == -1
 NoLimit == -1
@@ -52,6 +54,17 @@ X10(r, v)   == Look(Tabs(cfg[r]).x10, v)
 
 Note(t, n) == TLCSet(1, Append(TLCGet(1), <<pos, t, n>>))
 Cl(t, n, F) == IF Mode = "mc" THEN F ELSE (IF F THEN TRUE ELSE Note(t, n))
+
+(* Property clauses.  PS(<< <<tag, name, F>>, ... >>) is one conjunct of an action:            *)
+(*   mc:    never a guard -- failing names are accumulated in viol, and NoViolation is checked  *)
+(*          as an invariant, so TLC *proves* (within bounds) that the modelled behaviour of the *)
+(*          code implies every property clause;                                                 *)
+(*   trace: each failing clause is noted with its tag.                                          *)
+PS(L) == IF Mode = "mc"
+         THEN viol' = viol \cup {L[i][2] : i \in {j \in 1..Len(L) : ~L[j][3]}}
+         ELSE /\ \A i \in 1..Len(L) : L[i][3] \/ Note(L[i][1], L[i][2])
+              /\ viol' = viol
+NoViolation == viol = {}
 
 Statuses == {"Optimal", "IterationLimit", "TimeLimit", "Unbounded", "LocallyInfeasible"}
 DeliberateErrs == {"InitEval", "LambMax", "LineSearch", "DerivCheck"}
@@ -89,6 +102,7 @@ Init ==
   /\ result = [r \in Runs |-> NoResult] /\ bad = [r \in Runs |-> {}]
   /\ clk = [r \in Runs |-> ClkInit] /\ disp = [r \in Runs |-> FALSE] /\ dlx = [r \in Runs |-> FALSE]
   /\ orc = <<>>
+  /\ viol = {}
 
 Step == pos' = IF Mode = "mc" THEN 0 ELSE pos + 1
 
@@ -101,14 +115,14 @@ MemoOK(q, a) == q \in DOMAIN orc => orc[q] = a
 (* solve() entry: every piece of per-solve state is re-created from the     *)
 (* configuration alone (C10).                                               *)
 NewSolve(r, c) ==
-  /\ Cl("S", "NewSolve.pc", pc[r] = "Idle")
+  /\ Cl("M", "NewSolve.pc", pc[r] = "Idle")
   /\ cfg' = [cfg EXCEPT ![r] = c]
   /\ pc' = [pc EXCEPT ![r] = "Init"]
   /\ cur' = [cur EXCEPT ![r] = c.start]
   /\ lamb' = [lamb EXCEPT ![r] = c.lambInit]
   /\ path' = [path EXCEPT ![r] = IF c.collectPath THEN <<c.start>> ELSE <<>>]
   /\ Step
-  /\ UNCHANGED <<rho, prho, filt, iter, nacc, nnot, ymax, trial, inner, post, pen, hist, ptime,
+  /\ UNCHANGED <<viol, rho, prho, filt, iter, nacc, nnot, ymax, trial, inner, post, pen, hist, ptime,
                  status, err, result, bad, clk, disp, dlx, orc>>
 
 ExemptPhases == {"scaling", "derivcheck"}
@@ -126,13 +140,15 @@ PhaseOK(p, ph) ==
 
 (* One call of a user callback (through the evaluator or directly).         *)
 Eval(r, e) ==
-  /\ Cl("S", "Eval.pc", pc[r] \notin Terminal)
+  /\ Cl("M", "Eval.pc", pc[r] \notin Terminal)
   /\ Cl("S", "Eval.phase.known", e.phase # "unknown")
-  /\ Cl("P:C05", "eval.inbox", e.phase \notin ExemptPhases => e.inbox)
-  /\ Cl("P:C11", "eval.callerdata", e.changed = <<>>)
   /\ Cl("M", "eval.phase", PhaseOK(pc[r], e.phase))
   /\ Cl(TwinTag(r), "twin.eval", (pc[r] # "Idle" /\ cfg[r].twin # "none" /\ e.xid # NoPt)
                                    => MemoOK(<<cfg[r].algKey, "eval", e.comp, e.xid>>, e.ok))
+  /\ PS(<<
+        <<"P:C05", "eval.inbox", e.phase \notin ExemptPhases => e.inbox>>,
+        <<"P:C11", "eval.callerdata", e.changed = <<>>>>
+     >>)
   /\ orc' = IF pc[r] # "Idle" /\ cfg[r].twin # "none" /\ e.xid # NoPt
             THEN Memo(<<cfg[r].algKey, "eval", e.comp, e.xid>>, e.ok) ELSE orc
   /\ bad' = [bad EXCEPT ![r] = IF e.ok \/ e.xid = NoPt THEN @ ELSE @ \cup {e.xid}]
@@ -143,7 +159,7 @@ Eval(r, e) ==
 
 (* One read of time.time().                                                 *)
 Clock(r, e) ==
-  /\ Cl("S", "Clock.pc", pc[r] \notin (Terminal \cup {"Idle"}))
+  /\ Cl("M", "Clock.pc", pc[r] \notin (Terminal \cup {"Idle"}))
   /\ Cl("M", "clock.monotone", Le(clk[r].t, e.t))
   /\ Cl("M", "clock.expired", e.site \in {"terminate", "inner"} =>
            (e.expired <=> (cfg[r].deadline # NoDeadline /\ Le(cfg[r].deadline, e.t))))
@@ -156,18 +172,18 @@ Clock(r, e) ==
   /\ inner' = [inner EXCEPT ![r] = [@ EXCEPT !.dl = @ \/ (e.site = "inner" /\ e.expired),
                                             !.rd = IF e.site = "inner" THEN @ + 1 ELSE @]]
   /\ Step
-  /\ UNCHANGED <<pc, cfg, algVars, nnot, post, disp, path, ptime, bad, orc>>
+  /\ UNCHANGED <<viol, pc, cfg, algVars, nnot, post, disp, path, ptime, bad, orc>>
 
 (* penalty_strategy.initial(): the only place rho leaves its sentinel.      *)
 InitRho(r, e) ==
-  /\ Cl("S", "InitRho.pc", pc[r] = "Init")
+  /\ Cl("M", "InitRho.pc", pc[r] = "Init")
   /\ Cl("M", "initrho.params", e.rho = cfg[r].rho0)
   /\ rho' = [rho EXCEPT ![r] = e.rho]
   /\ prho' = [prho EXCEPT ![r] = e.rho]
   /\ pc' = [pc EXCEPT ![r] = "Top"]
   /\ inner' = [inner EXCEPT ![r] = InnerInit]
   /\ Step
-  /\ UNCHANGED <<cfg, cur, lamb, filt, iter, nacc, trial, pen, hist, status, err, result, ymax,
+  /\ UNCHANGED <<viol, cfg, cur, lamb, filt, iter, nacc, trial, pen, hist, status, err, result, ymax,
                  nnot, post, disp, clk, dlx, path, ptime, bad, orc>>
 
 OrderedStatus(o) == IF o.opt THEN "Optimal" ELSE IF o.infeas THEN "LocallyInfeasible"
@@ -179,15 +195,17 @@ CheckTerminate(r, e) ==
       tl  == clk[r].fresh /\ clk[r].site = "terminate" /\ clk[r].expired
       q   == <<cfg[r].algKey, "obs", cur[r]>>
   IN
-  /\ Cl("S", "CheckTerminate.pc", pc[r] = "Top")
-  /\ Cl("P:C12", "check.iter", e.iter = iter[r])
-  /\ Cl("P:C12", "check.cur", e.cur = cur[r])
-  /\ Cl("P:C02", "iterlimit.iff", (e.status = "IterationLimit") <=> lim)
-  /\ Cl("P:C02", "timelimit.after", e.status = "TimeLimit" => tl)
-  /\ Cl("P:C08", "deadline.stops", (~lim /\ dlx[r]) => e.status = "TimeLimit")
+  /\ Cl("M", "CheckTerminate.pc", pc[r] = "Top")
   /\ Cl("M", "timelimit.when", (~lim /\ tl) => e.status = "TimeLimit")
   /\ Cl("M", "status.order", (~lim /\ ~tl) => e.status = OrderedStatus(e.obs))
   /\ Cl(TwinTag(r), "twin.obs", (~lim /\ ~tl) => MemoOK(q, e.obs))
+  /\ PS(<<
+        <<"P:C12", "check.iter", e.iter = iter[r]>>,
+        <<"P:C12", "check.cur", e.cur = cur[r]>>,
+        <<"P:C02", "iterlimit.iff", (e.status = "IterationLimit") <=> lim>>,
+        <<"P:C02", "timelimit.after", e.status = "TimeLimit" => tl>>,
+        <<"P:C08", "deadline.stops", (~lim /\ dlx[r]) => e.status = "TimeLimit">>
+     >>)
   /\ orc' = IF lim \/ tl THEN orc ELSE Memo(q, e.obs)
   /\ status' = [status EXCEPT ![r] = e.status]
   /\ pc' = [pc EXCEPT ![r] = IF e.status = "none" THEN "Disp" ELSE "Fin"]
@@ -198,25 +216,27 @@ CheckTerminate(r, e) ==
 
 (* display.should_display(): an observer decision, never algorithmic.       *)
 ShouldDisplay(r, e) ==
-  /\ Cl("S", "ShouldDisplay.pc", pc[r] = "Disp")
+  /\ Cl("M", "ShouldDisplay.pc", pc[r] = "Disp")
   /\ Cl("M", "display.mode", (cfg[r].display = "always" => e.disp) /\ (cfg[r].display = "never" => ~e.disp))
   /\ disp' = [disp EXCEPT ![r] = e.disp]
   /\ pc' = [pc EXCEPT ![r] = "Begin"]
   /\ Step
-  /\ UNCHANGED <<cfg, algVars, nnot, post, clk, dlx, path, ptime, bad, inner, orc>>
+  /\ UNCHANGED <<viol, cfg, algVars, nnot, post, clk, dlx, path, ptime, bad, inner, orc>>
 
 (* Solver._compute_step entry.                                              *)
 TrialBegin(r, e) ==
-  /\ Cl("S", "TrialBegin.pc", pc[r] = "Begin")
-  /\ Cl("P:C12", "trial.from", e.from = cur[r])
-  /\ Cl("P:C15", "lamb.carried", e.dt = Recip(r, lamb[r]))
-  /\ Cl("P:C15", "no.trial.at.lambmax", Lt(lamb[r], cfg[r].lambMax))
-  /\ Cl("P:C16", "rho.positive", Lt(cfg[r].zero, e.rhoUsed))
-  /\ Cl("P:C16", "rho.nondecreasing", hist[r] # <<>> => Le(Last(hist[r]).rhoUsed, e.rhoUsed))
-  /\ Cl("P:C16", "constant.unchanged", cfg[r].pen = "Constant" => e.rhoUsed = cfg[r].rho0)
-  /\ Cl("P:C16", "dualnorm.bound", cfg[r].pen = "DualNorm" => Le(e.rhoUsed, MaxR(cfg[r].rho0, ymax[r])))
+  /\ Cl("M", "TrialBegin.pc", pc[r] = "Begin")
   /\ Cl("M", "rho.used.is.solver.rho", e.rhoUsed = rho[r])
   /\ Cl("M", "display.arg", e.disp = disp[r])
+  /\ PS(<<
+        <<"P:C12", "trial.from", e.from = cur[r]>>,
+        <<"P:C15", "lamb.carried", e.dt = Recip(r, lamb[r])>>,
+        <<"P:C15", "no.trial.at.lambmax", Lt(lamb[r], cfg[r].lambMax)>>,
+        <<"P:C16", "rho.positive", Lt(cfg[r].zero, e.rhoUsed)>>,
+        <<"P:C16", "rho.nondecreasing", hist[r] # <<>> => Le(Last(hist[r]).rhoUsed, e.rhoUsed)>>,
+        <<"P:C16", "constant.unchanged", cfg[r].pen = "Constant" => e.rhoUsed = cfg[r].rho0>>,
+        <<"P:C16", "dualnorm.bound", cfg[r].pen = "DualNorm" => Le(e.rhoUsed, MaxR(cfg[r].rho0, ymax[r]))>>
+     >>)
   /\ trial' = [trial EXCEPT ![r] = [NoTrial EXCEPT !.from = e.from, !.rhoUsed = e.rhoUsed,
                                                    !.lambUsed = e.lambUsed, !.dt = e.dt]]
   /\ inner' = [inner EXCEPT ![r] = InnerInit]
@@ -227,19 +247,21 @@ TrialBegin(r, e) ==
 
 (* One call of newton_method(...).step(iterate).                            *)
 NewtonStep(r, e) ==
-  /\ Cl("S", "NewtonStep.pc", pc[r] = "InTrial")
+  /\ Cl("M", "NewtonStep.pc", pc[r] = "InTrial")
   /\ Cl("M", "newton.k", e.k = inner[r].k)
   /\ Cl("M", "newton.maxk", e.k < (CASE cfg[r].ctl = "Exact" -> 10 [] cfg[r].ctl = "DistRatio" -> 2 [] OTHER -> 1))
   /\ inner' = [inner EXCEPT ![r] = [@ EXCEPT !.k = @ + 1,
                                             !.fault = @ \/ (e.raised \in {"StepSolverError", "EvalError"})]]
   /\ Step
-  /\ UNCHANGED <<pc, cfg, algVars, nnot, post, disp, clk, dlx, path, ptime, bad, orc>>
+  /\ UNCHANGED <<viol, pc, cfg, algVars, nnot, post, disp, clk, dlx, path, ptime, bad, orc>>
 
 (* A factorisation or a solve of the linear solver.                         *)
 Lin(r, e) ==
-  /\ Cl("S", "Lin.pc", pc[r] = "InTrial")
-  /\ Cl("P:C17", "lin.error.type", e.raised \in {"none", "LinearSolverError"})
-  /\ Cl("P:C17", "lin.finite", e.raised = "none" => e.finite)
+  /\ Cl("M", "Lin.pc", pc[r] = "InTrial")
+  /\ PS(<<
+        <<"P:C17", "lin.error.type", e.raised \in {"none", "LinearSolverError"}>>,
+        <<"P:C17", "lin.finite", e.raised = "none" => e.finite>>
+     >>)
   /\ inner' = [inner EXCEPT ![r] = [@ EXCEPT !.fault = @ \/ (e.raised # "none" /\ e.phase = "trial"),
                                             !.ls = IF Mode = "mc" THEN @ + 1 ELSE @]]
   /\ Step
@@ -265,20 +287,23 @@ TrialEnd(r, e) ==
       a == [kind |-> e.kind, pt |-> e.pt, lambNext |-> e.lambNext]
       byDeadline == inner[r].dl
   IN
-  /\ Cl("S", "TrialEnd.pc", pc[r] = "InTrial")
+  /\ Cl("M", "TrialEnd.pc", pc[r] = "InTrial")
   /\ Cl("M", "kind.accepted", e.accepted <=> e.kind = "accept")
-  /\ Cl("P:C15", "fail.keepsPoint", e.kind = "fail" => e.pt = t.from)
-  /\ Cl("P:C15", "nonaccept.shrinks", e.kind # "accept" => Lt(t.lambUsed, e.lambNext))
-  /\ Cl("P:C07", "fault.notaccepted", inner[r].fault => e.kind # "accept")
-  /\ Cl("P:C08", "deadline.notaccepted", inner[r].dl => e.kind # "accept")
+  /\ Cl("M", "fixed.always.accepts", cfg[r].ctl = "Fixed" => e.kind # "reject")
   /\ Cl("M", "fault.fails", (inner[r].fault \/ inner[r].dl) => e.kind = "fail")
   /\ Cl("M", "fail.needs.fault", e.kind = "fail" => (inner[r].fault \/ inner[r].dl))
-  /\ Cl("P:C07", "accept.neverfailed", e.kind = "accept" => e.ptx \notin bad[r])
-  /\ Cl("P:C05", "accept.inbox", e.kind = "accept" => e.inbox)
-  /\ Cl("P:C15", "exact.solves", (e.kind = "accept" /\ cfg[r].ctl = "Exact") => e.resClass = "le")
   /\ Cl("M", "lamb.next", LambNextOK(r, t, e))
   /\ Cl("M", "inner.count", InnerCountOK(r, e))
   /\ Cl(TwinTag(r), "twin.trial", ~byDeadline => MemoOK(q, a))
+  /\ PS(<<
+        <<"P:C15", "fail.keepsPoint", e.kind = "fail" => e.pt = t.from>>,
+        <<"P:C15", "nonaccept.shrinks", e.kind # "accept" => Lt(t.lambUsed, e.lambNext)>>,
+        <<"P:C07", "fault.notaccepted", inner[r].fault => e.kind # "accept">>,
+        <<"P:C08", "deadline.notaccepted", inner[r].dl => e.kind # "accept">>,
+        <<"P:C07", "accept.neverfailed", e.kind = "accept" => e.ptx \notin bad[r]>>,
+        <<"P:C05", "accept.inbox", e.kind = "accept" => e.inbox>>,
+        <<"P:C15", "exact.solves", (e.kind = "accept" /\ cfg[r].ctl = "Exact") => e.resClass = "le">>
+     >>)
   /\ orc' = IF byDeadline THEN orc ELSE Memo(q, a)
   /\ trial' = [trial EXCEPT ![r] = [t EXCEPT !.kind = e.kind, !.pt = e.pt, !.lambNext = e.lambNext,
                                              !.accepted = e.accepted,
@@ -295,13 +320,16 @@ TrialEnd(r, e) ==
 
 (* callbacks(ComputedStep, iterate, next_iterate, accept)                   *)
 Notify(r, e) ==
-  /\ Cl("S", "Notify.pc", pc[r] = "Post" /\ ~post[r].n /\ ~post[r].w /\ ~post[r].p)
-  /\ Cl("P:C15", "abort.at.lambmax", Lt(trial[r].lambNext, cfg[r].lambMax))
-  /\ Cl("P:C12", "notify.from", e.from = cur[r])
+  /\ Cl("M", "Notify.pc", pc[r] = "Post" /\ ~post[r].n /\ ~post[r].w /\ ~post[r].p)
+  /\ Cl("M", "notify.after.abort.test", Lt(trial[r].lambNext, cfg[r].lambMax))
   /\ Cl("M", "notify.to", e.to = trial[r].pt)
   /\ Cl("M", "notify.accept", e.accept = trial[r].accepted)
-  /\ Cl("P:C05", "notify.inbox", e.fromInbox /\ e.toInbox)
   /\ Cl("M", "notify.rho", e.solverRho = rho[r])
+  /\ PS(<<
+        <<"P:C15", "abort.at.lambmax", Lt(trial[r].lambNext, cfg[r].lambMax)>>,
+        <<"P:C12", "notify.from", e.from = cur[r]>>,
+        <<"P:C05", "notify.inbox", e.fromInbox /\ e.toInbox>>
+     >>)
   /\ post' = [post EXCEPT ![r] = [@ EXCEPT !.n = TRUE]]
   /\ nnot' = [nnot EXCEPT ![r] = @ + 1]
   /\ Step
@@ -309,49 +337,54 @@ Notify(r, e) ==
 
 (* logger.info(display.row(state)): observer only.                          *)
 Row(r, e) ==
-  /\ Cl("S", "Row.pc", pc[r] = "Post" /\ ~post[r].w /\ ~post[r].p)
+  /\ Cl("M", "Row.pc", pc[r] = "Post" /\ ~post[r].w /\ ~post[r].p)
   /\ Cl("M", "row.if.display", disp[r])
   /\ Cl("M", "row.after.notify", cfg[r].ncb > 0 => post[r].n)
   /\ post' = [post EXCEPT ![r] = [@ EXCEPT !.w = TRUE]]
   /\ Step
-  /\ UNCHANGED <<pc, cfg, algVars, nnot, disp, clk, dlx, path, ptime, bad, inner, orc>>
+  /\ UNCHANGED <<viol, pc, cfg, algVars, nnot, disp, clk, dlx, path, ptime, bad, inner, orc>>
 
 Dom(f, g) == Le(f[1], g[1]) /\ Le(f[2], g[2])
 FilterInsert(F, en) == {f \in F : ~Dom(en, f)} \cup {en}
 
-PolicyOK(r, e) ==
-  LET p == cfg[r].pen
-      F == filt[r]
-      en == <<e.entry[1], e.entry[2]>>
-  IN
-  CASE p = "Constant" -> /\ Cl("M", "constant.result", e.nextRho = cfg[r].rho0 /\ e.ok)
+PolicyM(r, e) ==
+  LET p == cfg[r].pen IN
+  CASE p = "Constant" -> Cl("M", "constant.result", e.nextRho = cfg[r].rho0 /\ e.ok)
     [] p = "DualNorm" ->
          /\ Cl("M", "dualnorm.rule",
                IF ~cfg[r].m0 /\ Le(X10(r, e.prhoBefore), e.ynorm)
                THEN e.prhoAfter = MinR(e.ynorm, X10(r, e.prhoBefore))
                ELSE e.prhoAfter = e.prhoBefore)
-         /\ Cl("P:C16", "dualnorm.factor10", Le(e.prhoAfter, X10(r, e.prhoBefore)))
          /\ Cl("M", "dualnorm.result", e.nextRho = e.prhoAfter /\ e.ok)
     [] p \in {"ObjFilter", "LagFilter"} ->
-         /\ Cl("M", "filter.before", ToSet(e.filtBefore) = F)
-         /\ Cl("P:C18", "filter.refuse.iff", e.ok <=> ~(\E f \in F : Dom(f, en)))
-         /\ Cl("P:C18", "filter.accept.removes", e.ok => ToSet(e.filtAfter) = FilterInsert(F, en))
-         /\ Cl("P:C18", "filter.refuse.keeps", ~e.ok => ToSet(e.filtAfter) = F)
-         /\ Cl("P:C18", "filter.veto.x10", ~e.ok => e.prhoAfter = X10(r, e.prhoBefore))
-         /\ Cl("P:C18", "filter.accept.rho", e.ok => e.prhoAfter = e.prhoBefore)
-         /\ Cl("P:C18", "filter.antichain", \A f, g \in ToSet(e.filtAfter) : f # g => ~Dom(f, g))
+         /\ Cl("M", "filter.before", ToSet(e.filtBefore) = filt[r])
          /\ Cl("M", "filter.result", e.nextRho = e.prhoAfter)
-    [] OTHER -> /\ Cl("M", "policy.result", e.nextRho = e.prhoAfter /\ e.ok)
+    [] OTHER -> Cl("M", "policy.result", e.nextRho = e.prhoAfter /\ e.ok)
+
+PolicyP(r, e) ==
+  LET p == cfg[r].pen
+      F == filt[r]
+      en == <<e.entry[1], e.entry[2]>>
+  IN
+  CASE p = "DualNorm" -> << <<"P:C16", "dualnorm.factor10", Le(e.prhoAfter, X10(r, e.prhoBefore))>> >>
+    [] p \in {"ObjFilter", "LagFilter"} -> <<
+         <<"P:C18", "filter.refuse.iff", e.ok <=> ~(\E f \in F : Dom(f, en))>>,
+         <<"P:C18", "filter.accept.removes", e.ok => ToSet(e.filtAfter) = FilterInsert(F, en)>>,
+         <<"P:C18", "filter.refuse.keeps", ~e.ok => ToSet(e.filtAfter) = F>>,
+         <<"P:C18", "filter.veto.x10", ~e.ok => e.prhoAfter = X10(r, e.prhoBefore)>>,
+         <<"P:C18", "filter.accept.rho", e.ok => e.prhoAfter = e.prhoBefore>>,
+         <<"P:C18", "filter.antichain", \A f, g \in ToSet(e.filtAfter) : f # g => ~Dom(f, g)>> >>
+    [] OTHER -> <<>>
 
 (* penalty_strategy.update(iterate, next_iterate)                           *)
 PenaltyUpdate(r, e) ==
-  /\ Cl("S", "PenaltyUpdate.pc", pc[r] = "Post" /\ ~post[r].p)
+  /\ Cl("M", "PenaltyUpdate.pc", pc[r] = "Post" /\ ~post[r].p)
   /\ Cl("M", "penalty.only.accepted", trial[r].accepted)
   /\ Cl("M", "penalty.after.notify", cfg[r].ncb > 0 => post[r].n)
   /\ Cl("M", "penalty.after.row", disp[r] => post[r].w)
   /\ Cl("M", "penalty.prho", cfg[r].pen # "Constant" => e.prhoBefore = prho[r])
-  /\ Cl("P:C16", "policy.monotone", Le(e.prhoBefore, e.prhoAfter))
-  /\ PolicyOK(r, e)
+  /\ PolicyM(r, e)
+  /\ PS(<< <<"P:C16", "policy.monotone", Le(e.prhoBefore, e.prhoAfter)>> >> \o PolicyP(r, e))
   /\ pen' = [pen EXCEPT ![r] = [nextRho |-> e.nextRho, ok |-> e.ok, ynorm |-> e.ynorm]]
   /\ prho' = [prho EXCEPT ![r] = e.prhoAfter]
   /\ filt' = [filt EXCEPT ![r] = IF cfg[r].pen \in {"ObjFilter", "LagFilter"} THEN ToSet(e.filtAfter) ELSE @]
@@ -367,12 +400,16 @@ Commit(r) ==
       go == t.accepted /\ post[r].p /\ pen[r].ok
   IN
   /\ pc[r] = "Post"
-  /\ Cl("P:C15", "abort.at.lambmax.commit", Lt(t.lambNext, cfg[r].lambMax))
-  /\ Cl("P:C12", "commit.notified", cfg[r].ncb > 0 => post[r].n)
+  /\ Cl("M", "commit.after.abort.test", Lt(t.lambNext, cfg[r].lambMax))
+  /\ Cl("M", "commit.after.notify", cfg[r].ncb > 0 => post[r].n)
   /\ Cl("M", "commit.rowed", disp[r] => post[r].w)
   /\ Cl("M", "commit.penalized", t.accepted <=> post[r].p)
-  /\ Cl("P:C16", "commit.rho.monotone", go => Le(rho[r], pen[r].nextRho))
-  /\ Cl("P:C16", "commit.dualnorm.x10", (go /\ cfg[r].pen = "DualNorm") => Le(pen[r].nextRho, X10(r, rho[r])))
+  /\ PS(<<
+        <<"P:C15", "abort.at.lambmax.commit", Lt(t.lambNext, cfg[r].lambMax)>>,
+        <<"P:C12", "commit.notified", cfg[r].ncb > 0 => post[r].n>>,
+        <<"P:C16", "commit.rho.monotone", go => Le(rho[r], pen[r].nextRho)>>,
+        <<"P:C16", "commit.dualnorm.x10", (go /\ cfg[r].pen = "DualNorm") => Le(pen[r].nextRho, X10(r, rho[r]))>>
+     >>)
   /\ cur' = [cur EXCEPT ![r] = IF go THEN t.pt ELSE @]
   /\ rho' = [rho EXCEPT ![r] = IF go THEN pen[r].nextRho ELSE @]
   /\ nacc' = [nacc EXCEPT ![r] = IF go THEN @ + 1 ELSE @]
@@ -391,29 +428,31 @@ Return(r, e) ==
       a == [status |-> e.status, x |-> e.x, y |-> e.y, d |-> e.d,
             iterations |-> e.iterations, accepted |-> e.accepted]
   IN
-  /\ Cl("S", "Return.pc", pc[r] = "Fin")
+  /\ Cl("M", "Return.pc", pc[r] = "Fin")
   /\ Cl("M", "return.status", e.status = status[r])
-  /\ Cl("P:C06", "return.status.known", e.status \in Statuses)
-  /\ Cl("P:C12", "return.iterations", e.iterations = iter[r])
-  /\ Cl("P:C12", "iterations.announced", cfg[r].ncb > 0 => e.iterations = nnot[r])
-  /\ Cl("P:C12", "return.accepted", e.accepted = nacc[r])
-  /\ Cl("P:C12", "return.x.is.cur", cur[r] \in ToSet(e.xFrom))
-  /\ Cl("P:C02", "iterbound", cfg[r].limit # NoLimit => e.iterations <= cfg[r].limit)
-  /\ Cl("P:C06", "return.finite", e.finite)
-  /\ Cl("P:C05", "return.inbox", e.xInbox)
-  /\ Cl("P:C12", "dist.factor", e.distGe1)
-  /\ Cl("P:C12", "path.columns", cfg[r].collectPath => e.path = path[r])
-  /\ Cl("P:C12", "path.t0", cfg[r].collectPath => e.mtime0)
-  /\ Cl("P:C12", "path.times", cfg[r].collectPath =>
-           (Len(e.mtimeSteps) = Len(ptime[r]) /\
-            \A k \in 1..MinR(Len(ptime[r]), Len(e.mtimeSteps)) : ptime[r][k] \in ToSet(e.mtimeSteps[k])))
   /\ Cl("M", "path.absent", ~cfg[r].collectPath => e.path = <<>>)
-  /\ Cl("P:C11", "return.callerdata", e.changed = <<>>)
-  /\ Cl("P:C01", "return.kkt", e.status = "Optimal" => UserKKT(e.kkt))
-  /\ Cl("P:C02", "return.infeasible.justified", e.status = "LocallyInfeasible" => (e.just.violGt /\ e.just.infStat))
-  /\ Cl("P:C02", "return.unbounded.justified", e.status = "Unbounded" => (e.just.feas /\ e.just.objLe))
-  /\ Cl("P:C08", "deadline.returns.limit", dlx[r] => e.status \in {"TimeLimit", "IterationLimit"})
   /\ Cl(TwinTag(r), "twin.result", MemoOK(q, a))
+  /\ PS(<<
+        <<"P:C06", "return.status.known", e.status \in Statuses>>,
+        <<"P:C12", "return.iterations", e.iterations = iter[r]>>,
+        <<"P:C12", "iterations.announced", cfg[r].ncb > 0 => e.iterations = nnot[r]>>,
+        <<"P:C12", "return.accepted", e.accepted = nacc[r]>>,
+        <<"P:C12", "return.x.is.cur", cur[r] \in ToSet(e.xFrom)>>,
+        <<"P:C02", "iterbound", cfg[r].limit # NoLimit => e.iterations <= cfg[r].limit>>,
+        <<"P:C06", "return.finite", e.finite>>,
+        <<"P:C05", "return.inbox", e.xInbox>>,
+        <<"P:C12", "dist.factor", e.distGe1>>,
+        <<"P:C12", "path.columns", cfg[r].collectPath => e.path = path[r]>>,
+        <<"P:C12", "path.t0", cfg[r].collectPath => e.mtime0>>,
+        <<"P:C12", "path.times", cfg[r].collectPath =>
+           (Len(e.mtimeSteps) = Len(ptime[r]) /\
+            \A k \in 1..MinR(Len(ptime[r]), Len(e.mtimeSteps)) : ptime[r][k] \in ToSet(e.mtimeSteps[k]))>>,
+        <<"P:C11", "return.callerdata", e.changed = <<>>>>,
+        <<"P:C01", "return.kkt", e.status = "Optimal" => UserKKT(e.kkt)>>,
+        <<"P:C02", "return.infeasible.justified", e.status = "LocallyInfeasible" => (e.just.violGt /\ e.just.infStat)>>,
+        <<"P:C02", "return.unbounded.justified", e.status = "Unbounded" => (e.just.feas /\ e.just.objLe)>>,
+        <<"P:C08", "deadline.returns.limit", dlx[r] => e.status \in {"TimeLimit", "IterationLimit"}>>
+     >>)
   /\ orc' = Memo(q, a)
   /\ result' = [result EXCEPT ![r] = [status |-> e.status,
                                       x |-> IF cur[r] \in ToSet(e.xFrom) THEN cur[r] ELSE -2,
@@ -431,18 +470,20 @@ Raise(r, e) ==
       qa == <<cfg[r].algKey, "trial", Len(hist[r]), t.from, t.lambUsed, t.rhoUsed>>
       twinAlsoAborts == qa \in DOMAIN orc /\ Le(cfg[r].lambMax, orc[qa].lambNext)
   IN
-  /\ Cl("S", "Raise.pc", pc[r] \notin (Terminal \cup {"Idle"}))
-  /\ Cl("P:C06", "raise.deliberate", e.kind \in DeliberateErrs)
-  /\ Cl("P:C06", "raise.initeval.legit", e.kind = "InitEval" => (pc[r] = "Init" /\ inner[r].fault))
-  /\ Cl("P:C06", "raise.lambmax.legit", e.kind = "LambMax" => (pc[r] = "Post" /\ Le(cfg[r].lambMax, t.lambNext)))
-  /\ Cl("P:C06", "raise.linesearch.legit", e.kind = "LineSearch" => (pc[r] = "InTrial" /\ cfg[r].newton = "Globalized"))
-  /\ Cl("P:C06", "raise.derivcheck.legit", e.kind = "DerivCheck" => (pc[r] = "Init" /\ cfg[r].derivCheck))
-  /\ Cl("P:C07", "init.fault.dedicated", (pc[r] = "Init" /\ inner[r].fault) => e.kind = "InitEval")
-  /\ Cl("P:C07", "trial.fault.survived", (pc[r] \in {"InTrial", "Post"} /\ (inner[r].fault \/ bad[r] # {})) => e.kind = "LambMax")
-  /\ Cl("P:C08", "deadline.never.raises", dlx[r] => twinAlsoAborts)
-  /\ Cl("P:C09", "observer.never.raises", e.kind \notin DeliberateErrs => ~(cfg[r].debug \/ disp[r]))
-  /\ Cl("P:C11", "raise.callerdata", e.changed = <<>>)
+  /\ Cl("M", "Raise.pc", pc[r] \notin (Terminal \cup {"Idle"}))
   /\ Cl(TwinTag(r), "twin.raise", MemoOK(q, e.kind))
+  /\ PS(<<
+        <<"P:C06", "raise.deliberate", e.kind \in DeliberateErrs>>,
+        <<"P:C06", "raise.initeval.legit", e.kind = "InitEval" => (pc[r] = "Init" /\ inner[r].fault)>>,
+        <<"P:C06", "raise.lambmax.legit", e.kind = "LambMax" => (pc[r] = "Post" /\ Le(cfg[r].lambMax, t.lambNext))>>,
+        <<"P:C06", "raise.linesearch.legit", e.kind = "LineSearch" => (pc[r] = "InTrial" /\ cfg[r].newton = "Globalized")>>,
+        <<"P:C06", "raise.derivcheck.legit", e.kind = "DerivCheck" => (pc[r] = "Init" /\ cfg[r].derivCheck)>>,
+        <<"P:C07", "init.fault.dedicated", (pc[r] = "Init" /\ inner[r].fault) => e.kind = "InitEval">>,
+        <<"P:C07", "trial.fault.survived", (pc[r] \in {"InTrial", "Post"} /\ inner[r].fault) => e.kind = "LambMax">>,
+        <<"P:C08", "deadline.never.raises", (dlx[r] /\ cfg[r].twin = "C08" /\ "F8" \notin Faithful) => twinAlsoAborts>>,
+        <<"P:C09", "observer.never.raises", e.kind \notin DeliberateErrs => ~(cfg[r].debug \/ disp[r])>>,
+        <<"P:C11", "raise.callerdata", e.changed = <<>>>>
+     >>)
   /\ orc' = Memo(q, e.kind)
   /\ err' = [err EXCEPT ![r] = e.kind]
   /\ pc' = [pc EXCEPT ![r] = "Raised"]
@@ -497,7 +538,7 @@ Twin_SameEnd == \A p \in TwinPairs :
          /\ StripCause(hist[p[1]]) = StripCause(hist[p[2]]))
 C08_NoLeak == \A r \in Runs : pc[r] = "Done" =>
      (result[r].x = cfg[r].start \/ \E k \in 1..Len(hist[r]) : hist[r][k].kind = "accept" /\ hist[r][k].pt = result[r].x)
-C08_StopsAsLimit == \A r \in Runs : (pc[r] = "Raised" /\ dlx[r]) =>
+C08_StopsAsLimit == "F8" \in Faithful \/ \A r \in Runs : (pc[r] = "Raised" /\ dlx[r]) =>
      \E p \in TwinPairs : p[1] = r /\ pc[p[2]] = "Raised"
 
 (* Observer steps stutter on the algorithmic view (C09, single run).        *)
